@@ -433,6 +433,15 @@ func plPlacementScenarios(thorough bool) []*plScenario {
 		}
 		out = append(out, &plScenario{Name: "place:source-unsorted", SrcN: 2, TgtN: 2, Colls: []*plColl{c2}, Drivers: []plDriver{{Kind: "start", Coll: 0}}, MsgPosPChannel: true})
 	}
+	// physical channel names in a prefix relation (dml_1 / dml_10, as in every deployment with more than ten channels),
+	// listed in either shard order: anything that matches channels by substring pairs the wrong shards
+	for vi, ord := range [][]int{{10, 1}, {1, 10}} {
+		c := mkColl(101, "c1", []string{fmt.Sprintf("src-dml_%d", ord[0]), fmt.Sprintf("src-dml_%d", ord[1])}, []string{fmt.Sprintf("tgt-dml_%d", ord[0]), fmt.Sprintf("tgt-dml_%d", ord[1])})
+		for i, sh := range c.Shards {
+			sh.Script = data(i)
+		}
+		out = append(out, &plScenario{Name: fmt.Sprintf("place:prefix-names-%d", vi), SrcN: 2, TgtN: 2, Colls: []*plColl{c}, Drivers: []plDriver{{Kind: "start", Coll: 0}}, MsgPosPChannel: true})
+	}
 	// two collections whose shards are placed crosswise: the second one is forwarded between handlers
 	{
 		// c1 pins source channel 0 -> downstream 0 and 1 -> 1; c2 lives on source 0 but downstream 1, c3 on source 1
@@ -513,7 +522,7 @@ func TestVerifC02Routing(t *testing.T) {
 		sc.Bound = &one
 		scs = append(scs, sc)
 	}
-	res.Rule = "sched engine over the real channel manager: placements of source/downstream shards onto physical channels {renamed channels, downstream names sorting differently, two collections placed crosswise (forward path between handlers), downstream partition id learned through the create-partition event, downstream collection created through the create-collection event; thorough: 2:1 and 1:2 channel counts} plus every single-letter script; all start orders and schedules within the deviation bound; oracle per emitted message: downstream collection id, downstream partition id of the same-named partition, downstream vchannel paired by sorted order, arrival on the pchannel hosting that vchannel, every pack/message position naming that channel, source message id kept; non-trivial = executions with interleaving inside the handler"
+	res.Rule = "sched engine over the real channel manager: placements of source/downstream shards onto physical channels {renamed channels, downstream names sorting differently, channel names in a prefix relation (dml_1 / dml_10), two collections placed crosswise (forward path between handlers), downstream partition id learned through the create-partition event, downstream collection created through the create-collection event; thorough: 2:1 and 1:2 channel counts} plus every single-letter script; all start orders and schedules within the deviation bound; oracle per emitted message: downstream collection id, downstream partition id of the same-named partition, downstream vchannel paired by sorted order, arrival on the pchannel hosting that vchannel, every pack/message position naming that channel, source message id kept; non-trivial = executions with interleaving inside the handler"
 	plExplore(t, res, "C02", bound, scs, plCheck{props: "12"}, 150*time.Second)
 }
 
